@@ -298,10 +298,12 @@ func runC08(cs *vrt.Case) {
 			if wop != ">>" && wop != "<<" {
 				wb = "uint100(0x" + r.Big(r.Range(65, 90)).Text(16) + ")"
 			}
+			// a type with a method (inlined once per call, its blocks are numbered per instance)
+			lib += "\ntype Acc struct {\n\tV int32\n}\n\nfunc (a *Acc) Add(d int32) {\n\ta.V = a.V*3 + d\n}\n"
 			lib += fmt.Sprintf("\nfunc Wide(x uint100) uint100 {\n\tk := uint100(0x%s) %s %s\n\treturn x ^ k\n}\n", r.Big(r.Range(70, 100)).Text(16), wop, wb)
 			os.WriteFile(filepath.Join(dir, n, n+".mpcl"), []byte(lib), 0o644)
 			fmt.Fprintf(&imp, "\t%q\n", n)
-			fmt.Fprintf(&body, "\tsum = %s.Mix(sum)*b + %s.Tag()\n\twv = %s.Wide(wv)\n", n, n, n)
+			fmt.Fprintf(&body, "\tsum = %s.Mix(sum)*b + %s.Tag()\n\twv = %s.Wide(wv)\n\tvar acc%s %s.Acc\n\tacc%s.V = sum\n\tacc%s.Add(b)\n\tacc%s.Add(a)\n\tsum = acc%s.V\n", n, n, n, n, n, n, n, n, n)
 		}
 		p = c08Program{name: "user-libraries", pkgPath: dir,
 			src: "package main\n\nimport (\n" + imp.String() + ")\n\nfunc main(a, b int32, c uint100) (int32, uint100) {\n\tsum := a\n\twv := c\n" + body.String() + "\treturn sum + intern(mainTag), wv\n}\n"}
